@@ -108,20 +108,23 @@ async def check_shipped(ctx, case):
     ctx.set_case("shipped", case)
     rcs = G.keys_of(ast, "rc")
     hints = {k: "Hinweis " + k for k in G.keys_of(ast, "hint")}
-    for asg in (case.get("assignments") or [{k: ctx.rng.choice("FUK") for k in rcs} for _ in range(3)]):
-        cer = E.make_cer(asg, {k: True for k in G.keys_of(ast, "fc")}, hints)
-        expected = logic.OUTCOME[logic.ref_eval(ast, asg)]
-        for mode in ("hardcoded", "cer"):
+    asgs = case.get("assignments") or [{k: ctx.rng.choice("FUK") for k in rcs} for _ in range(3)]
+    # mode by mode, the assignments one after the other: consecutive messages through the same evaluator instances / the same data object
+    for mode in ("hardcoded", "cer", "cer-long-lived", "instances"):
+        for asg in asgs:
+            cer = E.make_cer(asg, {k: True for k in G.keys_of(ast, "fc")}, hints)
+            expected = logic.OUTCOME[logic.ref_eval(ast, asg)]
             ctx.evaluation()
             ctx.count("evaluations_with_shipped_evaluators")
+            ctx.count("mode:" + mode)
             out = await H.with_shipped_evaluators(mode, cer, lambda: requirement_constraint_evaluation(s))
-            wcase = dict(case, assignments=[asg])
+            wcase = dict(case, assignments=asgs)
             if out[0] != "ok":
                 ctx.violation(f"evaluation-raises-{type(out[1]).__name__}", f"requirement_constraint_evaluation({s!r}) with the {mode} evaluators under {asg} {describe(out)[:300]}", case=wcase)
                 return
             got = (out[1].requirement_constraints_fulfilled, out[1].requirement_is_conditional)
             if got != expected:
-                ctx.violation("outcome-mapping", f"{s!r} under {asg} with the {mode} evaluators: (fulfilled, conditional) = {got}, documented mapping of state {logic.NAME[logic.ref_eval(ast, asg)]} is {expected}", case=wcase)
+                ctx.violation("outcome-mapping", f"{s!r} under {asg} with the {mode} evaluators (after the assignments {asgs[:asgs.index(asg)]} in the same process): (fulfilled, conditional) = {got}, documented mapping of state {logic.NAME[logic.ref_eval(ast, asg)]} is {expected}", case=wcase)
                 return
 
 
